@@ -17,6 +17,7 @@ type entry struct {
 }
 
 var table = map[string]entry{
+	"C01": {"fault_enumeration", checks.C01},
 	"C02": {"exploration", checks.C02},
 	"C03": {"exploration", checks.C03},
 	"C04": {"exploration", checks.C04},
